@@ -230,6 +230,9 @@ func c19Prop(c *sim.Case) {
 func TestC19(t *testing.T) {
 	r := sim.NewRun(t, "C19")
 	defer r.Finish()
+	if r.Shard%2 == 1 {
+		sim.EnableDebugLogging() // odd shards run with every logging scope at debug level: logging must not change what is done
+	}
 	r.Rule = "1-4 OIDC filters with a literal secret or a reference to one of three Secret names (namespace empty, current or other); histories of events on referenced and unrelated Secrets in the current and another namespace - set a new value, set empty, drop the key, mark deleting (finalizer + deletion timestamp), delete, spurious reconcile - each followed by Reconcile of that object on the controller-runtime fake client (controller built through the verif-tagged hook); after every event each filter's effective secret is compared with a reference map name -> last eligible value, and every third event an authorization-code exchange is driven through a real handler per filter and the Basic credentials received by the token endpoint are compared too. Non-trivial = a referenced Secret was applied at least twice with an unrelated or ineligible event in between (or a cross-namespace reference was refused); distinct = distinct (filter count, event sequence)."
 	r.Assumptions = []string{"the controller-runtime fake client stands in for the API server; Reconcile is invoked by the harness as the manager would after each event"}
 	parts := map[string]func(*sim.Case){"histories": c19Prop}
